@@ -65,10 +65,11 @@ def run_harness(prog, fname, tables=None, max_unwind=400):
 class Query(object):
     """SMT-LIB script for a harness run: definitions once, one push/pop per obligation"""
 
-    def __init__(self, ex, extra_roots=()):
+    def __init__(self, ex, extra_roots=(), only=None):
         self.ex = ex
-        roots = list(ex.assumptions) + [o['viol'] for o in ex.obligations]
-        for o in ex.obligations:
+        obs = [o for i, o in enumerate(ex.obligations) if only is None or i in only]
+        roots = list(ex.assumptions) + [o['viol'] for o in obs]
+        for o in obs:
             if 'guard' in o:
                 roots.append(o['guard'])
         roots += list(extra_roots)
@@ -85,7 +86,7 @@ class Query(object):
 
 def discharge(ex, kind='z3', timeout=600, log=None, want_models=True, only=None):
     """returns list of dicts per obligation: status in unsat/sat/unknown, model"""
-    q = Query(ex)
+    q = Query(ex, only=only)
     s = solve.Solver(kind, timeout)
     s.send(q.preamble())
     s.sync(extra=120)
